@@ -314,7 +314,11 @@ Section Counter.
     - pose proof (io_read_counted (volume_path ix (N.of_nat (S i))) st) as P.
       destruct (io_read (volume_path ix (N.of_nat (S i))) st) as [[b|x|q] st1]; cbn [snd] in P.
       + destruct (read_volume md5 b) as [v|x|q]; [| |cbn [snd]; exact P].
-        * cnt_if. eapply counted_trans; [exact P|apply IH].
+        * repeat lazymatch goal with
+                 | |- counted _ (snd (if ?c then _ else _)) =>
+                     destruct c; [first [cbn [snd]; exact P | eapply counted_trans; [exact P|apply IH]]|]
+                 end.
+          eapply counted_trans; [exact P|apply IH].
         * eapply counted_trans; [exact P|apply IH].
       + destruct x; try (cbn [snd]; exact P). eapply counted_trans; [exact P|apply IH].
       + cbn [snd]. exact P.
@@ -409,6 +413,7 @@ Section Counter.
       cbn [snd] in P; try (cbn [snd]; exact P).
     lazymatch goal with |- context [par1_outputs ?a ?b ?c ?d ?e] =>
       destruct (par1_outputs a b c d e) as [outs|e0|q] end; try (cbn [snd]; exact P).
+    lazymatch goal with |- counted _ (snd (if ?c then _ else _)) => destruct c; [cbn [snd]; exact P|] end.
     eapply counted_trans; [exact P|apply p1_io_writes_counted].
   Qed.
 
@@ -905,7 +910,7 @@ Section FixedIndex.
     destruct (negb (v_number v =? 0)); [discriminate|].
     destruct (load_data md5 ix (filter saved (v_entries v)) st1) as [[ds|x|q] st2] eqn:EL; try discriminate.
     destruct ds as [|d0 ds]; [discriminate|].
-    destruct (256 <=? v_count v); [discriminate|].
+    match type of H with context [if 256 <=? ?n then _ else _] => destruct (256 <=? n) end; [discriminate|].
     match type of H with context [load_vols md5 ix ?a ?i ?n ?sz ?acc st2] =>
       destruct (load_vols md5 ix a i n sz acc st2) as [[[slots size]|x|q] st3] end; try discriminate.
     injection H as <- _. cbn [s_saved]. exists b, v. split; [exact ER|]. split; [exact EV|reflexivity].
